@@ -28,8 +28,12 @@ DEFAULT_CHECKS = [
 MEM_LIMIT = int(os.environ.get("VP_MEM_GB", "12")) * (1 << 30)
 
 
-def flags():
+def flags(asserts=False):
     f = open(os.path.join(VERIF, "vp", "flags.txt")).read().split()
+    if asserts:
+        # thorough tier: NNI_ASSERT is compiled in; nni_panic is a stub that asserts
+        # unreachability, so every NNI_ASSERT of the code becomes a proof obligation
+        f = [x for x in f if x != "-DNDEBUG"]
     return f + ["-I%s/src" % REPO, "-I%s/include" % REPO, "-I%s" % VERIF,
                 "-I%s/include" % VERIF, "-DVP_CBMC=1"]
 
@@ -171,7 +175,7 @@ def run_unit(spec, unit, scratch, tier="quick", trace=False):
     base = tu[:-5]
     gb0, gb1, gb2 = base + ".0.gb", base + ".1.gb", base + ".2.gb"
     entry = unit["entry"]
-    cmd = ["goto-cc"] + flags() + sum((["-iquote", d] for d in iquote), []) + \
+    cmd = ["goto-cc"] + flags(unit.get("asserts_pass", False)) + sum((["-iquote", d] for d in iquote), []) + \
           ["--function", entry, tu, "-o", gb0]
     rc, out, err, _ = run(cmd, 300, log)
     if rc != 0:
@@ -358,6 +362,14 @@ def units_for(mods, prop=None, module=None, name=None, tier="quick"):
             if u.get("tier") == "thorough" and tier != "thorough":
                 continue
             out.append((spec, u))
+            if tier == "thorough" and spec.get("thorough_assert_pass") and not u.get("no_assert_pass"):
+                t = dict(u)
+                t["name"] = u["name"] + "@asserts"
+                t["asserts_pass"] = True
+                t.pop("replay", None)
+                if name and u["name"] != name:
+                    continue
+                out.append((spec, t))
     return out
 
 
